@@ -10,7 +10,7 @@ use std::cell::{Cell, RefCell};
 
 /// One record per executed cold operation that a trace validator cannot reconstruct from the
 /// post-state alone.
-#[derive(Debug, Clone, PartialEq, Eq)]
+#[derive(Debug, Clone, PartialEq)]
 pub enum Event {
     /// `Executor::step` popped this process from the run queue.
     Run { pid: ProcessId },
@@ -25,8 +25,13 @@ pub enum Event {
         targets: Vec<ProcessId>,
         now: u64,
     },
-    /// A `Select` completed through source number `source` (position in the written list).
-    SelectComplete { pid: ProcessId, source: usize },
+    /// A `Select` completed through source number `source` (position in the written list),
+    /// yielding `value`.
+    SelectComplete {
+        pid: ProcessId,
+        source: usize,
+        value: crate::value::Value,
+    },
     /// A receive filter was called on mailbox position `message`.
     FilterCall {
         pid: ProcessId,
